@@ -61,6 +61,7 @@ type replayFile struct {
 	Scenario    any                 `json:"scenario"`
 	Excerpt     []store.Event       `json:"event_log_excerpt"`
 	Original    map[string][]uint64 `json:"original_tapes,omitempty"`
+	Layout      string              `json:"check_layout_hash"`
 }
 
 type workerOut struct {
@@ -248,7 +249,7 @@ func worker(args []string) int {
 		}
 		classes[cls] = true
 		snap := ts.Snapshot()
-		rf := &replayFile{Property: id, VerifSeed: seed, RunIndex: i, RunSeed: rs, Tier: string(tier), Class: cls, Msg: res.Violation.Msg, Tapes: snap, Scenario: res.Scenario, Excerpt: res.Excerpt}
+		rf := &replayFile{Property: id, VerifSeed: seed, RunIndex: i, RunSeed: rs, Tier: string(tier), Class: cls, Msg: res.Violation.Msg, Tapes: snap, Scenario: res.Scenario, Excerpt: res.Excerpt, Layout: checks.LayoutHash()}
 		// minimise: same violation class at the same oracle
 		inProc := func(c map[string][]uint64) (*checks.Result, bool) {
 			r := ck.Run(tape.FromSnapshot(rs, c), tier)
@@ -538,6 +539,12 @@ func replay1(id, path string) int {
 	if rf.Property != id {
 		fmt.Fprintf(os.Stderr, "replay file is for %s, not %s\n", rf.Property, id)
 		return exitHarness
+	}
+	if rf.Layout != "" && rf.Layout != checks.LayoutHash() && rf.Tapes != nil {
+		fmt.Fprintf(os.Stderr, "replay file %s was recorded by another version of the check (layout %s, now %s): its tapes may decode into a different scenario\n", path, rf.Layout, checks.LayoutHash())
+		if os.Getenv("VERIF_STRICT_LAYOUT") == "1" {
+			return exitHarness
+		}
 	}
 	ts := tape.FromSnapshot(rf.RunSeed, rf.Tapes)
 	if rf.Tapes == nil {
@@ -866,6 +873,7 @@ func master(id string, tier checks.Tier) int {
 	regressRun := 0
 	for _, rp := range regs {
 		cmd := exec.Command(self, "replay", id, rp)
+		cmd.Env = append(os.Environ(), "VERIF_STRICT_LAYOUT=1")
 		out, _ := cmd.CombinedOutput()
 		code := -1
 		if cmd.ProcessState != nil {
